@@ -53,7 +53,21 @@ func (np *nameProv) ok(v ssa.Value, use ssa.Instruction, depth int) (bool, strin
 			}
 			cl, ok := strip(bo.X).(*ssa.Call)
 			isNil := (bo.Op == token.EQL) == fc.Pol
-			return ok && isNil && strings.HasSuffix(calleeName(&cl.Call), "telemetrygodev.validate") && strip(argsOf(cl)[0]) == strip(b)
+			if !(ok && isNil && strings.HasSuffix(calleeName(&cl.Call), "telemetrygodev.validate")) {
+				return false
+			}
+			if strip(argsOf(cl)[0]) == strip(b) {
+				return true
+			}
+			// … or b holds a by-value copy of the report that was validated
+			if ba, isA := strip(b).(*ssa.Alloc); isA {
+				for _, o := range copyOrigins(ba, factsAt(use)) {
+					if strip(argsOf(cl)[0]) == ssa.Value(o) {
+						return true
+					}
+				}
+			}
+			return false
 		}) {
 			return true, ""
 		}
